@@ -310,3 +310,9 @@ def run(ctx):
     ctx.run_clause("C03.a", c03_inputs)
     ctx.run_clause("C03.b", c03_propagation)
     ctx.run_clause("C03.d", c03_repair)
+    # stale backward edges make backward projection re-execute projections that no longer read the firewall: the edge
+    # role rule of C01.c is a necessary condition of C03 as well
+    from . import C01
+    ctx.alias = {"C01.c": "C03.h"}
+    ctx.run_clause("C03.h", C01.c01c_roles)
+    ctx.alias = {}
